@@ -66,6 +66,12 @@ def read_dup(heap, para):
     lst = heap.objs[para.name]['_kvpair_order']
     seq, problems = H.read_list(heap, lst)
     order = [heap.objs[n.name]['value'].name[len('@kv_'):] for n in seq]
+    for n in seq:
+        kv = heap.objs[n.name]['value']
+        par = heap.objs[kv.name].get('parent_element')
+        if par != para:
+            problems.append('the field %s is part of the paragraph but its parent link is %s: iter_tokens() (every dump) asserts that each part has a parent'
+                            % (kv.name[len('@kv_'):], par.name if isinstance(par, H.Ref) else par))
     d = heap.objs[para.name]['_kvpair_elements']
     index = {}
     for k, lref in heap.objs[d.name]['entries']:
